@@ -70,8 +70,17 @@ G1bCase(e1, e2, kind, i1, i2) ==
 G1bK(k) == {G1bCase(e1, e2, k, i1, i2) : e1 \in FieldExprsB, e2 \in FieldExprsB, i1 \in ArgPairs, i2 \in ArgPairs}
 G1b(z) == G1bK("struct") \cup G1bK("enum")
 
+(* G1d: as G1b, but the root mentions the second argument of the first instantiation before the instantiation itself, so the *)
+(* argument ids of the kept instantiation are not ascending (parameter order must follow the declaration, not the ids)      *)
+ArgPairsD == {<<u16, u8>>, <<P_Vec(u8), u32>>, <<str, A0("U")>>}
+G1dCase(e1, e2, i1, i2) ==
+  [fam |-> "G1d",
+   prog |-> Program(<<Struct("R", Mod, <<>>, <<SField("pre", i1[2]), SField("x", P_Adt("D", i1)), SField("y", P_Adt("D", i2))>>), G1bDef(e1, e2, "struct")>> \o Helpers, <<>>),
+   roots |-> <<A0("R")>>]
+G1d(z) == {G1dCase(e1, e2, i1, i2) : e1 \in FieldExprsB, e2 \in FieldExprsB, i1 \in ArgPairsD, i2 \in {<<u8, bool>>, <<u16, u8>>}}
+
 (* G1c: definitions in nested modules referring to each other, recursion through Box/Vec/Option<Box> *)
-RecKinds == {"box", "vec", "optbox", "mutual", "generic", "posbox"}
+RecKinds == {"box", "vec", "optbox", "mutual", "generic", "posbox", "shadow"}
 G1cCase(rk, docs) ==
   LET D(n) == IF docs THEN <<"doc of " \o n, "", " second paragraph after a blank line">> ELSE <<>>
       defs ==
@@ -84,6 +93,19 @@ G1cCase(rk, docs) ==
           [] rk = "posbox" -> <<[Enum("L", Mod, <<>>, <<Variant("Nil", 0, <<>>), [Variant("Cons", 1, <<SField("", u32), SField("", P_Opt(P_Box(A0("L"))))>>) EXCEPT !.docs = D("Cons")]>>) EXCEPT !.docs = D("L")],
                                 Struct("Chain", Mod, <<>>, <<SField("", u8), SField("", P_Opt(P_Box(A0("Chain")))), SField("", P_Vec(P_Box(A0("L"))))>>),
                                 Struct("Hold", Mod, <<>>, <<SField("c", A0("Chain")), SField("t", P_Tup(<<u8, P_Opt(P_Box(A0("Hold")))>>))>>)>>
+          \* user definitions in modules whose names coincide with prelude entries, used next to the prelude types themselves
+          [] rk = "shadow" -> <<Struct("L", Mod, <<>>, <<SField("a", P_Adt("Cow", <<u32>>)), SField("b", P_Adt("Option", <<u8>>)), SField("c", P_Opt(u8)),
+                                                         SField("d", P_Adt("Result", <<u16>>)), SField("e", A0("Vec")), SField("f", P_Adt("Cow", <<bool>>)),
+                                                         SField("g", P_Cow(u8)), SField("h", A0("String")), SField("i", A0("Duration")), SField("j", P_Vec(P_Adt("Range", <<u8>>))),
+                                                         SField("k", P_Res(u8, P_Adt("Option", <<bool>>))), SField("l", P_Adt("BTreeMap", <<u8>>))>>),
+                                Struct("Cow", Mod \o <<"farm">>, <<Param("T")>>, <<SField("milk", T), SField("age", u8)>>),
+                                Enum("Option", Mod, <<Param("T")>>, <<Variant("Done", 0, <<SField("", T)>>), Variant("Pending", 1, <<>>)>>),
+                                Enum("Result", Mod \o <<"outcome">>, <<Param("T")>>, <<Variant("Fine", 0, <<SField("", T)>>), Variant("Bad", 1, <<SField("code", u8)>>)>>),
+                                Struct("Vec", Mod, <<>>, <<SField("len", u8)>>),
+                                Struct("String", Mod \o <<"text">>, <<>>, <<SField("", P_Vec(u16))>>),
+                                Struct("Duration", Mod, <<>>, <<SField("ticks", u64)>>),
+                                Struct("Range", Mod, <<Param("T")>>, <<SField("lo", T), SField("hi", T), SField("step", T)>>),
+                                Struct("BTreeMap", Mod \o <<"coll">>, <<Param("K")>>, <<SField("keys", P_Vec(P_Param("K")))>>)>>
           [] rk = "generic" -> <<Struct("L", Mod, <<>>, <<SField("a", P_Adt("Q", <<u8>>)), SField("b", P_Adt("Q", <<bool>>))>>),
                                  Struct("Q", Mod, <<Param("T")>>, <<SField("v", T), SField("next", P_Vec(P_Adt("Q", <<T>>)))>>)>>
   IN [fam |-> "G1c", prog |-> Program(defs \o Helpers, <<>>), roots |-> IF rk = "posbox" THEN <<A0("L"), A0("Hold")>> ELSE <<A0("L")>>]
